@@ -57,7 +57,8 @@ def gen_program(rnd):
             for _ in range(rnd.randrange(0, 4)):
                 stmts.extend(filler(rnd, parity_dep))
         files.append(apm.SrcFile(f"f{i}.mac", stmts))
-    kind = rnd.choice(["none", "const", "diff", "diff", "diff2", "viasym", "shiftdiv", "self", "selfnonlin", "second", "dotlead", "dotlead-diff", "aliascoef", "aliascoef"])
+    kind = rnd.choice(["none", "const", "diff", "diff", "diff2", "viasym", "shiftdiv", "self", "selfnonlin", "second", "dotlead", "dotlead-diff", "aliascoef", "aliascoef",
+                       "chain2", "fwdmul"])
     K = rnd.choice([0, 0o1000, 0o2000, 0o40000, 0o100000, 0o400, 0o157000])
     if rnd.random() < 0.15:
         # odd bases: only byte-sized content is meaningful there
@@ -95,6 +96,18 @@ def gen_program(rnd):
         expr = ("bin", "-", ("bin", "+", apm.num(K), ("bin", "*", apm.num(c), ("sym", "palias"))), ("bin", "*", apm.num(c), ("sym", "qalias")))
         if rnd.random() < 0.3:
             expr = ("bin", "-", ("bin", "+", apm.num(K), ("sym", "palias")), ("sym", "qalias"))
+    elif kind == "chain2":
+        # a label reached through a chain of two symbols (anywhere in the file, often after the directive)
+        a, b = rnd.sample(labels, 2) if len(labels) >= 2 else (labels[0], labels[0])
+        extra_defs.append(apm.assign("pch", ("sym", "qch")))
+        extra_defs.append(apm.assign("qch", ("sym", a)))
+        expr = ("bin", "-", ("bin", "+", apm.num(K), ("sym", "pch")), ("sym", b))
+    elif kind == "fwdmul":
+        # both labels multiplied separately by a constant that is itself defined through a later one: k*e - k*s
+        a, b = rnd.sample(labels, 2) if len(labels) >= 2 else (labels[0], labels[0])
+        extra_defs.append(apm.assign("kmul", ("bin", "+", ("sym", "nmul"), apm.num(1))))
+        extra_defs.append(apm.assign("nmul", apm.num(rnd.choice([1, 2]))))
+        expr = ("bin", "-", ("bin", "+", apm.num(K), ("bin", "*", ("sym", "kmul"), ("sym", a))), ("bin", "*", ("sym", "kmul"), ("sym", b)))
     elif kind == "shiftdiv":
         expr = ("bin", "+", apm.num(K), rnd.choice([("bin", "<<", ("grp", diff()), apm.num(1)), ("bin", "/", ("grp", diff()), apm.num(2)),
                                                     ("bin", "&", ("grp", diff()), apm.num(0o177776))]))
@@ -285,8 +298,10 @@ def run_case(case, cnt=None, root=None):
             address_dependent = case["skip"].startswith("skip") or any(
                 (s.k == "simple" and s.d in (".even", ".odd")) or (s.k == "blk" and s.d == ".align") or (s.k == "dot" and not getattr(s, "is_base", False) and s is not prog.files[0].stmts[0])
                 for f in prog.files for s in f.stmts)
-            zero_net = case["kind"] in ("diff", "diff2", "viasym", "shiftdiv", "dotlead-diff", "aliascoef")
-            if o.cls == "fail" and "recursive-definition" in o.ids("error") and address_dependent and zero_net:
+            zero_net = case["kind"] in ("diff", "diff2", "viasym", "shiftdiv", "dotlead-diff", "aliascoef", "chain2", "fwdmul")
+            # ... and its two other listed shapes: a label reached through a chain of two or more symbols, a product of a label with a
+            # constant that is defined through a later constant
+            if o.cls == "fail" and "recursive-definition" in o.ids("error") and (address_dependent or case["kind"] in ("chain2", "fwdmul")) and zero_net:
                 if msgs and msgs[0].startswith("valid program not assembled"):
                     v["known_key"] = "link-cancellation"
                     out.append(v)
